@@ -753,21 +753,18 @@ func main() {
 
 	var pre strings.Builder
 	pre.WriteString("(* written by /verif/harness/cmd/c07 -- observations of the real code *)\n")
-	pre.WriteString("From Sekai Require Import Base.Prelude Model.Perm Model.C07Check.\n")
+	pre.WriteString("From Sekai Require Import Base.Prelude Model.Perm Model.C07Check Gen.Gates.\n")
 	us := make([]string, nAddr)
 	for i := range us {
 		us[i] = strconv.Itoa(i)
 	}
 	pre.WriteString("Definition uaddrs : list Z := " + hx.List(us) + ".\n")
 	pre.WriteString("Definition uperms : list Z := " + zl(uperms) + ".\n")
-	dapp := os.Getenv("C07_DAPP_PERM") // resolved by the translator gen_gates (see checks/c07.py)
-	if dapp == "" {
-		dapp = "61"
-	}
-	pre.WriteString("Definition dapp_perm : Z := " + dapp + ".\n")
+	// the variation points of the tree come from the regenerated gate table (translator gen_gates)
+	pre.WriteString("Definition tree_cfg : cfg := mkCfg Gates.tree_dapp_perm Gates.tree_claim_indexed Gates.tree_import_role_bl Gates.tree_rotate_fixed.\n")
 	out.WriteFile("pre.v", pre.String())
 	out.WriteFile("cases.txt", strings.Join(lines, "\n")+"\n")
-	out.WriteJSON("meta.json", map[string]string{"case_type": "c07_case", "mismatch_fn": "c07_mismatches dapp_perm uperms", "violation_fn": "c07_violations uperms"})
+	out.WriteJSON("meta.json", map[string]string{"case_type": "c07_case", "mismatch_fn": "c07_mismatches tree_cfg uperms", "violation_fn": "c07_violations uperms"})
 	out.WriteJSON("cases.json", js)
 	out.WriteJSON("dist.json", map[string]interface{}{"seed": seed, "histories": len(js), "steps": steps, "by_kind": dist,
 		"universe": map[string]interface{}{"addresses": nAddr, "permissions": uperms}})
